@@ -19,7 +19,8 @@ RULE = (
     "brackets and spaces in the crop name or its directory) over {re-sow same shape, "
     "Crop.grow(ids), xyzpy.grow(i), grow_missing, change the set of settings "
     "on which the function fails and the exception it raises there "
-    "(FlakyError / StopIteration / KeyError / ValueError / EOFError; side "
+    "(FlakyError / StopIteration / KeyError / ValueError / EOFError, or "
+    "a result that cannot be pickled, so that the WRITE fails; side "
     "file read by the function), delete "
     "result i, delete result i AND grow batch j before the next look, corrupt result i (empty / half / garbage / wrong length) + "
     "check_bad, check_bad alone, reload the Crop, query}.  Model = (B, set of "
@@ -311,7 +312,7 @@ def strategy(draw):
                                "vals": st.lists(ids, max_size=3),
                                "exc": st.sampled_from(
                                    ["flaky", "flaky", "stop", "key", "value",
-                                    "eof"])}),
+                                    "eof", "unpicklable"])}),
         st.fixed_dictionaries({"op": st.just("delete"), "i": ids}),
         st.fixed_dictionaries({"op": st.just("swap"), "i": ids, "j": ids}),
         st.fixed_dictionaries({"op": st.just("corrupt"), "i": ids,
